@@ -27,6 +27,7 @@ type vh_memFS struct {
 	entries    []*vh_memEntry
 	walkErrAt  int // index at which Walk reports an error (-1: never)
 	wholeReads bool
+	readStep   int // > 0: every read hands out exactly this many bytes (no solver choice)
 }
 
 func (f *vh_memFS) Walk(ctx context.Context, target string, fn gofs.WalkDirFunc) error {
@@ -53,7 +54,7 @@ func (f *vh_memFS) Open(p string) (io.ReadCloser, error) {
 			if e.openErr {
 				return nil, vh_errInjected
 			}
-			return &vh_fragFile{data: e.data, failAfter: e.readErrAfter, whole: f.wholeReads}, nil
+			return &vh_fragFile{data: e.data, failAfter: e.readErrAfter, whole: f.wholeReads, step: f.readStep}, nil
 		}
 	}
 	return nil, os.ErrNotExist
@@ -64,6 +65,7 @@ type vh_fragFile struct {
 	pos       int
 	failAfter int  // >0: return an error once failAfter-1 bytes were handed out
 	whole     bool // hand out everything in one read
+	step      int  // > 0: fixed fragment size
 }
 
 func (r *vh_fragFile) Read(p []byte) (int, error) {
@@ -88,6 +90,15 @@ func (r *vh_fragFile) Read(p []byte) (int, error) {
 	}
 	if max == 0 {
 		return 0, nil
+	}
+	if r.step > 0 {
+		n := r.step
+		if n > max {
+			n = max
+		}
+		copy(p, r.data[r.pos:r.pos+n])
+		r.pos += n
+		return n, nil
 	}
 	n := 1 + v.Choose("read", max)
 	copy(p, r.data[r.pos:r.pos+n])
@@ -166,6 +177,7 @@ func (s *vh_memStream) SendMsg(m interface{}) error {
 	}
 	s.sendBusy = true
 	defer func() { s.sendBusy = false }()
+	v.Jitter()
 	s.sends++
 	if s.onSend != nil {
 		s.onSend(s.sends)
@@ -183,6 +195,7 @@ func (s *vh_memStream) SendMsg(m interface{}) error {
 	}
 	select {
 	case s.out <- vh_copyPacket(m.(*types.Packet)):
+		v.Jitter()
 		if s.latency {
 			v.Yield() // a transport whose SendMsg returns some time after the peer has seen the packet
 		}
